@@ -556,6 +556,27 @@ def scan(
 
     # This is successful because we've successfully scanned the
     # tree, whether or not that resulted in any imports.
+    #
+    # But the imports queued above exist only in memory: record the
+    # request as done from a task queued behind them (exclusive, so it also
+    # waits for those already in progress).  Otherwise a daemon stopped
+    # in-between would never import the files, with the request completed.
+    if req is not None:
+        Task(
+            func=_scan_done,
+            queue=queue,
+            key=node.io.fifo,
+            args=(req,),
+            name=f'Complete scan of "{path}" on {node.name}',
+            exclusive=True,
+        )
+
+
+def _scan_done(task: Task, req: ArchiveFileImportRequest) -> None:
+    """Record a scan request as complete.
+
+    Task queued by `scan` behind the imports it requested.
+    """
     import_request_done(req, "success")
 
 
